@@ -15,7 +15,7 @@ import z3
 
 from pyvc.core import (SV, SInt, SBool, SSeq, SDict, Obj, Val, VNone, BoolS, IntS, to_val, PyRaise, Unsupported,
                        Stub, cls_of, sub, cls_const)
-from pyvc.driver import Ob
+from pyvc.driver import Ob, cover_hyps
 from pyvc.ground import Q
 from pyvc.interp import Interp
 from pyvc.builtins_model import install
@@ -119,7 +119,7 @@ def clauses_for(chk, func, results, default_case):
     for pi, res in enumerate(results):
         _clauses_one(chk, func, pi, res, default_case)     # one scope per path (closures below)
     if results:
-        chk.add(Ob(func, "cover", "pre", results[0][0].hyps, z3.BoolVal(True), expect="sat"))
+        chk.add(Ob(func, "cover", "pre", cover_hyps(results), z3.BoolVal(True), expect="sat"))
 
 
 def _clauses_one(chk, func, pi, res, default_case):
